@@ -436,4 +436,21 @@ theorem C12_single_message_final_recorded_partial (s : State) (m : Msg) (g g' : 
     exact C12_grow_advances_by_one _ _ hwf
 
 
+/-- context.go: SetValidatorPowers replaces the whole validator map (it is re-created before the new
+set is copied in) and rebuilds the total from the new set: a validator that is not in the new set —
+one that left — fails `sanityCheck` ("not-validator") from then on, so nothing it sends reaches the
+filter, the calculator or the aggregator, and the threshold is taken against the powers of the new
+set only. (module.go: EndBlock hands over the cache's map after the dogfood updates were applied;
+a removal deletes the entry there: `cacheAddVals`.) -/
+theorem C12_departed_validator_has_no_weight (g : Agc) (vals : List (Nat × Int)) (p : Params) (m : Msg)
+    (h : alookup m.creator vals = none) :
+    (g.setValidators vals).checkMsg p m = some (.invalidMsg "not-validator") ∧
+    (g.setValidators vals).vals = vals ∧
+    (g.setValidators vals).total = vals.foldl (fun s kv => s + kv.2) 0 := by
+  refine ⟨?_, rfl, rfl⟩
+  simp [Agc.setValidators, Agc.checkMsg, Agc.sanityCheck, h]
+
+
+example : alookup 2 [((0 : Nat), (10 : Int)), (1, 10)] = none := by decide
+
 end ExoVerif.Oracle
